@@ -62,6 +62,7 @@ def _all_key_tuples(d):
 
 
 def enumerate_cases(tier):
+    yield from _structural()
     dmax = 1 if tier == "quick" else 2
     i = 0
     for d in range(dmax + 1):
@@ -77,6 +78,36 @@ def enumerate_cases(tier):
                         yield {"cfg": {"sig": list(sig), "start": None, "basis": None}, "op": op,
                                "a": {"cls": "enum", "keys": ka, "vals": None}, "b": {"cls": "enum", "keys": kb, "vals": None},
                                "mode": "generic", "cse": i % 2 == 0, "symcls": None}
+
+
+def _structural():
+    """Fixed cases every run: (a) d=5 operands holding a blade together with its complement / complementary grade blocks (the
+    only place where a*~a has a grade-5 part), (b) d=4 operands large enough for any 'big operand' path (12-16 blades) in
+    canonical, bitmask and reversed key order, with and without cse."""
+    def opnd(keys):
+        return {"cls": "enum", "keys": list(keys), "vals": None}
+    i = 0
+    for sig in ([1, 1, 1, 1, 1], [1, 1, 1, -1, 0], [-1, 1, -1, 1, 1]):
+        cfg = {"sig": sig, "start": None, "basis": None}
+        blocks = [[I, 31 ^ I] for I in range(16)] + [[31 ^ I, I] for I in (1, 3, 7)]
+        blocks += [[k for k in range(32) if bin(k).count("1") in g] for g in ((1, 4), (2, 3), (0, 5))]
+        for ka in blocks:
+            i += 1
+            yield {"cfg": cfg, "op": "normsq", "a": opnd(ka), "b": None, "mode": "generic", "cse": i % 2 == 0, "symcls": None}
+            if len(ka) == 2:
+                for kb in ([2], [4, 24], [31 ^ ka[0], ka[0]]):
+                    for op in ("sw", "proj"):
+                        i += 1
+                        yield {"cfg": cfg, "op": op, "a": opnd(ka), "b": opnd(kb), "mode": "generic", "cse": i % 2 == 0, "symcls": None}
+    canon16 = sorted(range(16), key=lambda k: (bin(k).count("1"), [j for j in range(4) if k >> j & 1]))
+    for sig in ([1, 1, 1, -1], [0, 1, 1, 1]):
+        cfg = {"sig": sig, "start": None, "basis": None}
+        for ka in (canon16, list(range(16)), canon16[::-1], [3, 5, 6, 9, 10, 12, 0, 15, 1, 2, 4, 8]):
+            for kb in ([1, 2, 4, 8], [8, 4, 2, 1], [3, 5, 9, 6, 10, 12]):
+                for cse in (False, True):
+                    for op in ("sw", "proj"):
+                        a_, b_ = (ka, kb) if op == "sw" else (kb, ka[:8])
+                        yield {"cfg": cfg, "op": op, "a": opnd(a_), "b": opnd(b_), "mode": "generic", "cse": cse, "symcls": None}
 
 
 def _values(opnd, mode, prefix):
